@@ -285,6 +285,8 @@ fn single_results<T: Real + Elem>(pl: &Planned<T>, x: &[Complex<T>], n: usize) -
 
 fn chunks_block<T: Real + Elem>(ctx: &mut Ctx, lens: &[usize]) {
     let mut pls = planners_for::<T>(ctx);
+    // every third scenario also records the chunk-iteration steps of each call (hook H4)
+    ctx.chunk_events = lens[0] % 3 == 1 && lens[0] < 200;
     for &n in lens {
         for (pid, p) in pls.iter_mut() {
             let kind = p.kind();
